@@ -15,7 +15,11 @@ import (
 	"time"
 
 	"github.com/c2FmZQ/ech"
+	"github.com/c2FmZQ/ech/dns"
 	vs "github.com/c2FmZQ/ech/vsched"
+
+	"verif/internal/dnsref"
+	"verif/internal/dohmem"
 )
 
 // plan of one target
@@ -77,10 +81,16 @@ func addrOf(i int) string { return fmt.Sprintf("192.0.2.%d:443", i+1) }
 func run(sc scenario, choose vs.Chooser, traceOn bool) (*trace, *vs.Sched) {
 	tr := &trace{cancelAt: -1}
 	var addrs []string
+	slow := false
 	for i, p := range sc.Plans {
-		if p.Kind == "resolve-error" {
+		switch p.Kind {
+		case "resolve-error":
 			addrs = append(addrs, strings.Repeat("x", 70)+fmt.Sprintf(".invalid%d.example:443", i))
-		} else {
+		case "slow-resolve":
+			// a host name whose lookups take D (virtual) seconds each; it resolves to this target's address and then succeeds at once
+			addrs = append(addrs, fmt.Sprintf("slow%d.example:443", i))
+			slow = true
+		default:
 			addrs = append(addrs, addrOf(i))
 		}
 	}
@@ -88,6 +98,26 @@ func run(sc scenario, choose vs.Chooser, traceOn bool) (*trace, *vs.Sched) {
 		d := &ech.Dialer[*fakeConn]{MaxConcurrency: sc.MaxConc, ConcurrencyDelay: time.Duration(sc.Delay) * unit, Timeout: time.Duration(sc.Timeout) * unit}
 		if sc.BadPublicName {
 			d.PublicName = strings.Repeat("p", 300)
+		}
+		if slow {
+			srv := &dohmem.Server{}
+			dns.VerifRoundTripper = srv
+			srv.Delay = func(ctx context.Context, q dohmem.Query) {
+				for i, p := range sc.Plans {
+					if p.Kind == "slow-resolve" && q.Name == fmt.Sprintf("slow%d.example", i) {
+						vs.SleepCtx(ctx, time.Duration(p.D)*unit)
+					}
+				}
+			}
+			srv.Zone = func(name string, t uint16) dohmem.Answer {
+				for i, p := range sc.Plans {
+					if p.Kind == "slow-resolve" && name == fmt.Sprintf("slow%d.example", i) && t == 1 {
+						return dohmem.Answer{Records: []dnsref.RR{{Name: name, Type: 1, Class: 1, TTL: 60, Fields: []dnsref.Field{{Raw: []byte{192, 0, 2, byte(i + 1)}}}}}}
+					}
+				}
+				return dohmem.Answer{}
+			}
+			d.Resolver, _ = ech.NewResolver("https://doh.test/dns-query")
 		}
 		d.DialFunc = func(ctx context.Context, network, addr string, tc *tls.Config) (*fakeConn, error) {
 			ti := -1
@@ -135,6 +165,8 @@ func run(sc scenario, choose vs.Chooser, traceOn bool) (*trace, *vs.Sched) {
 				if full = vs.SleepCtx(ctx, time.Duration(p.D)*unit); !full {
 					vs.Sleep(2 * unit)
 				}
+			} else if p.Kind == "slow-resolve" {
+				full = ctx.Err() == nil
 			} else {
 				full = vs.SleepCtx(ctx, time.Duration(p.D)*unit)
 			}
@@ -144,7 +176,7 @@ func run(sc scenario, choose vs.Chooser, traceOn bool) (*trace, *vs.Sched) {
 				a.result = "cancelled"
 				return nil, ctx.Err()
 			}
-			if p.Kind == "ok" || p.Kind == "ok-slow-to-abort" || p.Kind == "ok-ignoring-deadline" {
+			if p.Kind == "ok" || p.Kind == "ok-slow-to-abort" || p.Kind == "ok-ignoring-deadline" || p.Kind == "slow-resolve" {
 				a.result = "ok"
 				a.conn = &fakeConn{id: ti}
 				return a.conn, nil
@@ -153,7 +185,9 @@ func run(sc scenario, choose vs.Chooser, traceOn bool) (*trace, *vs.Sched) {
 			return nil, fmt.Errorf("attempt %d failed", ti)
 		}
 		ctx, cancel := vs.WithCancel(context.Background())
-		defer cancel()
+		// the caller's context outlives the call by far (a request context, not one made for this Dial): whatever Dial leaves
+		// running under it is not cleaned up by the caller
+		defer func() { vs.Sleep(30 * unit); cancel() }()
 		if sc.CancelAt >= 0 {
 			vs.GoNamed("canceller", func() {
 				vs.Sleep(time.Duration(sc.CancelAt) * unit)
@@ -272,18 +306,31 @@ func monitor(sc scenario, tr *trace, s *vs.Sched) (key, what string) {
 			return "target-timeout", fmt.Sprintf("the attempt for target %d (with its ECH retry) occupied its slot from %v to %v, Timeout is %v", t, st, lastEnd[t], timeout)
 		}
 	}
-	// 8. no goroutine outlives the outstanding attempts: every thread Dial started has finished by the time Dial has returned
-	// and the last DialFunc call has returned (virtual time: waiting out a delay or a timer counts)
-	quiet := tr.retAt
-	for _, a := range tr.attempts {
-		quiet = max(quiet, a.end)
-	}
+	// 8. no goroutine outlives the outstanding attempts: after Dial has returned, virtual time may only pass while some DialFunc
+	// call is still in progress (an attempt that is slow to notice cancellation, or one begun after the decision under a
+	// cancelled context). A thread started by Dial that is still alive while time passes with NO call in progress is waiting for
+	// something else - a delay, a timer, a lookup - and has been left behind.
+	lastThread, lastName := time.Duration(0), ""
 	for _, te := range s.ThreadEnds() {
-		if te.ID == 0 || te.Name == "canceller" {
-			continue
+		if te.ID != 0 && te.Name != "canceller" && te.Done && te.At > lastThread {
+			lastThread, lastName = te.At, fmt.Sprintf("thread %d (%s)", te.ID, te.Name)
 		}
-		if te.Done && te.At > quiet {
-			return "goroutine-lingers", fmt.Sprintf("thread %d (%s) started by Dial finished at %v; Dial had returned at %v and the last attempt at %v", te.ID, te.Name, te.At, tr.retAt, quiet)
+	}
+	if lastThread > tr.retAt {
+		calls := append([]*attempt{}, tr.attempts...)
+		sort.SliceStable(calls, func(i, j int) bool { return calls[i].start < calls[j].start })
+		cur := tr.retAt
+		for _, a := range calls {
+			if a.end <= cur {
+				continue
+			}
+			if a.start > cur {
+				break // a gap before this call
+			}
+			cur = a.end
+		}
+		if cur < lastThread {
+			return "goroutine-lingers", fmt.Sprintf("%s started by Dial finished at %v; Dial had returned at %v and from %v on no DialFunc call was in progress: the thread was waiting for something else (a delay, a timer, a lookup)", lastName, lastThread, tr.retAt, cur)
 		}
 	}
 	// resolve-error targets count as failures for the staggering rule: handled by treating them as instantaneous failures
@@ -323,6 +370,9 @@ func monitor(sc scenario, tr *trace, s *vs.Sched) (key, what string) {
 		// failure: legitimate only if cancelled, or nothing could succeed
 		if !cancelledFirst {
 			for i, p := range sc.Plans {
+				if p.Kind == "slow-resolve" {
+					return "error-despite-success", fmt.Sprintf("Dial failed with %v although target %d resolves (slowly) and then accepts", tr.retErr, i)
+				}
 				if (p.Kind == "ok" || p.Kind == "ok-slow-to-abort" || p.Kind == "ok-ignoring-deadline") && p.D < sc.Timeout {
 					_ = i
 					return "error-despite-success", fmt.Sprintf("Dial failed with %v although target %d succeeds", tr.retErr, i)
@@ -377,7 +427,7 @@ func allDoneBefore(tr *trace, at time.Duration) bool { return tr.retAt <= at }
 
 // ---- scenarios and exploration ----
 
-var planDomain = []plan{{"ok", 0}, {"ok", 1}, {"ok", 3}, {"fail", 0}, {"fail", 1}, {"fail", 3}, {"hang", 0}, {"resolve-error", 0}, {"ok-slow-to-abort", 3}, {"reject-then-hang", 1}, {"ok-ignoring-deadline", 3}}
+var planDomain = []plan{{"ok", 0}, {"ok", 1}, {"ok", 3}, {"fail", 0}, {"fail", 1}, {"fail", 3}, {"hang", 0}, {"resolve-error", 0}, {"ok-slow-to-abort", 3}, {"reject-then-hang", 1}, {"ok-ignoring-deadline", 3}, {"slow-resolve", 3}}
 
 func scenarios(thorough bool) []scenario {
 	var out []scenario
